@@ -263,9 +263,11 @@ fn c07_follower_commit_rule_exact() {
             assert!(c <= bound);            // never beyond the index bound handed in
             assert!(c == leader || c == bound);
         }
-        None => assert!(leader <= mine),
+        // no update is always safe; it must happen when there is nothing to gain
+        None => assert!(leader <= mine || bound <= mine),
     }
     kani::cover!(r.is_some());
+    kani::cover!(r.is_none());
 }
 }
 
